@@ -554,6 +554,7 @@ class Unit:
             raise Unsupported(f"{where}: function has no body")
 
         vac_texts = {}
+        entry_txt_r23 = ""
         if body and not ext_body:
             bs, be = body
             # R1 / R2: logging
@@ -677,7 +678,7 @@ class Unit:
                 vac = ""
                 if self.vacuity and "novac" not in opts:
                     vid = f"{path}#loop{k}"
-                    vac = f" assert(false); /*VAC:{vid}*/ "
+                    vac = f" if crate::vac_choice({len(self.vac_ids)}) {{ assert(false); /*VAC:{vid}*/ }} "
                     self.vac_ids.append(vid)
                     self.vac_files[vid] = relfile
                 if lp["kind"] == "for" and r4 is not None and (r4set is None or k in r4set):
@@ -724,7 +725,7 @@ class Unit:
             vac = ""
             if self.vacuity and "novac" not in opts:
                 vid = f"{path}#entry"
-                vac = f" assert(false); /*VAC:{vid}*/ "
+                vac = f" if crate::vac_choice({len(self.vac_ids)}) {{ assert(false); /*VAC:{vid}*/ }} "
                 self.vac_ids.append(vid)
                 self.vac_files[vid] = relfile
             if entry.strip() or vac or r19 or "r21" in opts:
@@ -736,6 +737,7 @@ class Unit:
                 if entry.strip():
                     txt += split_hint(entry)
                 edits.append(Edit(bs + 1, bs + 1, lambda r, txt=txt: txt, prio=-1))
+                entry_txt_r23 = txt
             # exits
             # exits: `return` expressions and the leaf tail expressions (the value-producing ends of the body's
             # match / if / block structure), in source order
@@ -876,6 +878,18 @@ class Unit:
             self.log("R15" if "dyn " in a_ or "<S:" in b_ else "R5", relfile, src, sig_s, f"signature of {path}: `{a_}` -> `{b_}`")
         if "inherent" in opts:
             self.log("R5", relfile, src, sig_s, f"trait method {path} emitted as an inherent method")
+        r23k = None
+        if "r23" in opts:
+            # R23: only the tail of the body (statements k..end) is put under contract, as a function whose parameters are the
+            # bindings the dropped statements produced (header given by the template); the dropped statements are logged
+            r23k = int(opts["r23"])
+            stmts = it.get("stmts", [])
+            if not body or r23k >= len(stmts) or not parts.get("suffix"):
+                raise AnchorLost(f"{where}: r23={r23k} but the body has {len(stmts)} statements / no //@suffix| header")
+            sig_text = "".join(parts["suffix"]).rstrip()
+            for di in range(r23k):
+                self.log("R23", relfile, src, stmts[di][0], f"{path}: statement {di} dropped: `{src[stmts[di][0]:stmts[di][1]].decode().split(chr(10))[0][:90]}`")
+            self.log("R23", relfile, src, stmts[r23k][0], f"{path}: statements {r23k}..{len(stmts) - 1} emitted as a function with the template's header")
         origin_sig = {"kind": "sig", "file": relfile, "fn": fname, "line": line_of(src, sig_s), "tags": tags}
         self.emit(head + sig_text + "\n", origin_sig)
         # contract lines: one segment per template line so that failures map to a clause
@@ -890,6 +904,8 @@ class Unit:
         else:
             bs, be = it["body"]
             btxt = r.render(bs, be)
+            if r23k is not None:
+                btxt = "{" + entry_txt_r23 + r.render(it["stmts"][r23k][0], be - 1) + "}"
             if "r21" in opts:
                 btxt = re.sub(r"\b(?:tokio::time::)?Instant::now\(\)", "clk__.now()", btxt)
             self.emit(btxt + "\n", {"kind": "body", "file": relfile, "fn": fname, "line": line_of(src, bs), "tags": tags,
@@ -911,7 +927,7 @@ class Unit:
                 pre = "".join(f" let mut {nm} = {nm}; " for nm in muts)
                 if self.vacuity and "novac" not in opts:
                     vid = f"{hpath}#entry"
-                    pre += f" proof {{ assert(false); /*VAC:{vid}*/ }} "
+                    pre += f" proof {{ if crate::vac_choice({len(self.vac_ids)}) {{ assert(false); /*VAC:{vid}*/ }} }} "
                     self.vac_ids.append(vid)
                     self.vac_files[vid] = relfile
                 tail = split_hint(endh) if endh.strip() else ""
@@ -1002,7 +1018,7 @@ class Unit:
                 parts = {}
                 while i < n:
                     st2 = lines[i].strip()
-                    m = re.match(r"//@(\||loop\s+\d+\||entry\||exit\s+(?:\d+|\*)\||tryexit\s+\d+\||loopstart\s+\d+\||loopend\s+\d+\||afterloop\s+\d+\||beforeloop\s+\d+\||timer\s+\d+\||async\s+\d+\||asyncend\s+\d+\||closure\s+\d+\|)(.*)$", st2)
+                    m = re.match(r"//@(\||suffix\||loop\s+\d+\||entry\||exit\s+(?:\d+|\*)\||tryexit\s+\d+\||loopstart\s+\d+\||loopend\s+\d+\||afterloop\s+\d+\||beforeloop\s+\d+\||timer\s+\d+\||async\s+\d+\||asyncend\s+\d+\||closure\s+\d+\|)(.*)$", st2)
                     if not m:
                         break
                     kind = m.group(1)[:-1].strip()
@@ -1012,6 +1028,8 @@ class Unit:
                         parts.setdefault("contract_lines", []).append((text + "\n", f"{rel}:{i + 1}"))
                     elif kind == "entry":
                         parts.setdefault("entry", []).append(text + "\n")
+                    elif kind == "suffix":
+                        parts.setdefault("suffix", []).append(text + "\n")
                     else:
                         kk, num = kind.split()
                         parts.setdefault((kk, -1 if num == "*" else int(num)), []).append(text + "\n")
